@@ -25,7 +25,7 @@ def gen_attrs(rng, w, rich=True):
     for _ in range(rng.choice([0, 0, 1, 1, 2, 3] * 5 + [6, 9, 14])):
         w.add(rng.choice([' ', ' ', '  ', '\n', '\t']))
         kind = rng.choice(['dq', 'dq', 'sq', 'unq', 'bool', 'expr', 'ng', 'class', 'class'])
-        name = rng.choice(['id', 'data-x', 'href', 'title', ':bind', 'v-on:click', 'aria-label', 'xml:lang', '_x', 'a.b'])
+        name = rng.choice(['id', 'data-x', 'href', 'title', ':bind', 'v-on:click', 'aria-label', 'xml:lang', '_x', 'a.b', 'data-type', ':type', 'xtype', 'src'])
         if kind == 'ng':
             name = rng.choice(['*ngIf', '#ref', '[prop]', '(click)', '{...p}', '[(ngModel)]', '*'])
             kind = rng.choice(['dq', 'bool', 'bool'])
@@ -44,7 +44,7 @@ def gen_attrs(rng, w, rich=True):
                 body = rng.choice(['a', 'a b', 'foo  bar', ' a b ', 'a\tb\nc', '', 'x-1 y_2 z', 'a  ', 'foo\u3000bar baz', 'a\x0bb c', 'p\u2028q', 'x\x85y z', 'a\xa0b', 'é ü\u2003ö', 'a\rb', ' '.join('c%d' % k for k in range(rng.randint(5, 14)))]) if q else rng.choice(['a', 'foo-bar', 'item', 'a-very-long-class-name'])
                 val = q + body + ('}' if q == '{' else q)
             elif kind == 'dq':
-                val = '"%s"' % rng.choice(['a > b', '', 'x/y', '</div>', '<b>', "it's", 'a=b c', ' ', '/>', 'é ü', '{x}', '-->'])
+                val = '"%s"' % rng.choice(['a > b', '', 'x/y', '</div>', '<b>', "it's", 'a=b c', ' ', '/>', 'é ü', '{x}', '-->', '/a.js?type=min', 'text/x-template', 'type=text/html'])
             elif kind == 'sq':
                 val = "'%s'" % rng.choice(['a>b', '"', '', 'x y', '</p>', '<!--'])
             elif kind == 'unq':
@@ -81,6 +81,8 @@ def gen_elem(rng, depth, w, recs, parent, xml, max_depth=4, max_children=3):
         name = 'script'
     else:
         name = rng.choice(NAMES)
+        if kind == 'self' and rng.random() < 0.15:
+            name = rng.choice(['script', 'style'])        # a self-closed special element has no body to skip
     os_, _ = w.add('<' + name)
     if kind == 'tscript':
         # script with a non-JS type is NOT special: its body is ordinary markup
@@ -101,6 +103,15 @@ def gen_elem(rng, depth, w, recs, parent, xml, max_depth=4, max_children=3):
                   'inner': (vs + 1, ve - 1) if val[0] in '"\'' else (vs, ve)}]
     elif kind == 'special':
         attrs = gen_attrs(rng, w) if rng.random() < 0.5 else []
+        if name == 'script' and rng.random() < 0.35:
+            # attributes that only LOOK like a type attribute: the element stays special
+            w.add(' ')
+            ns, ne = w.add(rng.choice(['data-type', ':type', 'src', 'xtype', 'content-type']))
+            w.add('=')
+            val = rng.choice(['"lazy"', '"/app.js?type=min"', '"text/x-template"', "'type=text/html'", 'text/html'.replace('/', '-')])
+            vs, ve = w.add(val)
+            attrs = list(attrs) + [{'name': w.text()[ns:ne], 'ns': ns, 'ne': ne, 'val': val, 'vs': vs, 've': ve,
+                                    'inner': (vs + 1, ve - 1) if val[0] in '"\'' else (vs, ve)}]
         if rng.random() < 0.3:
             # the element's own closing tag, spelled inside its opening tag: the body starts after the tag, not before
             w.add(' ')
